@@ -315,7 +315,14 @@ impl<'a> Gen<'a> {
                 let r = self.scalar(scope, K::T, depth - 1);
                 Some(X::Bin(b(l), BinOper::PgOperator(sea_query::extension::postgres::PgBinOper::Concatenate), b(r)))
             }
-            3 => Some(X::Cust(if k == K::T { "CURRENT_USER".into() } else { "PI".into() })),
+            3 => Some(match self.rng.below(5) {
+                0 => X::Cust(if k == K::T { "CURRENT_USER".into() } else { "PI".into() }),
+                1 => X::Kw(*self.rng.pick(&["CURRENT_TIMESTAMP", "CURRENT_DATE", "CURRENT_TIME"])),
+                2 if k == K::T => X::Func("MD5", vec![self.scalar(scope, K::T, depth - 1)]),
+                3 if k != K::T => X::Func("ROUND", vec![self.scalar(scope, K::R, depth - 1), self.int_val()]),
+                4 if k != K::T => X::Func("RANDOM", vec![]),
+                _ => X::Kw("LOCALTIME"),
+            }),
             _ => None,
         }
     }
@@ -380,6 +387,12 @@ impl<'a> Gen<'a> {
             9 => {
                 let e = self.scalar(scope, k, depth - 1);
                 X::IsNull(b(e), self.rng.coin())
+            }
+            10 if !self.cfg.exec && (self.cfg.is(Dialect::Mysql) || self.cfg.is(Dialect::Postgres)) && self.rng.chance(1, 3) => {
+                let e = self.scalar(scope, K::I, depth - 1);
+                let sq = self.one_column_select(K::I, depth - 1);
+                let op = *self.rng.pick(&[BinOper::Equal, BinOper::NotEqual, BinOper::GreaterThan, BinOper::SmallerThanOrEqual]);
+                X::SubOp(b(e), op, self.rng.below(3) as u8, Box::new(sq))
             }
             10 => {
                 let sq = self.simple_select(depth - 1, Some(scope));
@@ -520,7 +533,8 @@ impl<'a> Gen<'a> {
                     on.push(self.boolean(&both, depth.min(1)));
                 }
             }
-            s.joins.push(Join { kind, from: f, on, lateral: false });
+            let lateral = matches!(f, From_::Sub(..)) && !self.cfg.exec && (self.cfg.is(Dialect::Mysql) || self.cfg.is(Dialect::Postgres)) && self.rng.chance(1, 3);
+            s.joins.push(Join { kind, from: f, on, lateral });
             scope.push(rel);
         }
         let mut full_scope = scope.clone();
@@ -624,6 +638,10 @@ impl<'a> Gen<'a> {
 
     fn aggregate(&mut self, scope: &[Rel]) -> X {
         let c = self.col_of(scope, Some(K::I)).unwrap();
+        if !self.cfg.exec && self.cfg.dialect.is_some() && self.rng.chance(1, 6) {
+            // aggregates without an exact SQLite counterpart (text level only)
+            return X::Func(*self.rng.pick(&["AVG", "BIT_AND", "BIT_OR"]), vec![c]);
+        }
         match self.rng.below(6) {
             0 => X::Func("COUNT", vec![X::Star]),
             1 => X::Func("SUM", vec![c]),
